@@ -84,11 +84,11 @@ def install(symconst=False, earth_exact=True):
         _set(E, 'RATE', S.var('W'))
         dom += [z3.Real('E2') > 0, z3.Real('E2') < z3.Q(1, 100), z3.Real('A') > 6000000, z3.Real('A') < 7000000,
                 z3.Real('W') > 0, z3.Real('W') < z3.Q(1, 1000)]
-        gp, ge = S.var('GP'), S.var('GE')
-        _set(E, 'GP', gp)
-        _set(E, 'GE', ge)
-        dom += [z3.Real('GP') > 9, z3.Real('GP') < 10, z3.Real('GE') > 9, z3.Real('GE') < 10]
-        _set(E, 'F', (1 - E.E2) ** 0.5 * E.GP / E.GE - 1)
+        # the gravity-formula constants are independent symbols (F is not tied to GP/GE/E2: the
+        # identities proved do not depend on that relation)
+        _set(E, 'GE', S.var('GE'))
+        _set(E, 'F', S.var('Fg'))
+        dom += [z3.Real('GE') > 9, z3.Real('GE') < 10, z3.Real('Fg') > 0, z3.Real('Fg') < z3.Q(1, 100)]
     else:
         # exact rationals of the doubles; F is re-derived in exact arithmetic from them
         for nm in ('E2', 'A', 'RATE', 'GE', 'GP', 'F'):
@@ -97,7 +97,8 @@ def install(symconst=False, earth_exact=True):
     return m
 
 
-WGS84 = {'E2': 6.6943799901413e-3, 'A': 6378137.0, 'W': 7.292115e-5, 'GE': 9.7803253359, 'GP': 9.8321849378}
+WGS84 = {'E2': 6.6943799901413e-3, 'A': 6378137.0, 'W': 7.292115e-5, 'GE': 9.7803253359, 'GP': 9.8321849378,
+         'Fg': (1 - 6.6943799901413e-3) ** 0.5 * 9.8321849378 / 9.7803253359 - 1}
 
 
 # ------------------------------------------------------------------------------------------
